@@ -75,7 +75,15 @@ def run(ctx):
         # the owner a coordinator reads a shard from is chosen at random and remote inputs arrive in scheduling
         # order: a cluster-only difference needs several attempts to show again
         recs, out, rc = replay(copies(rp["behaviour"], 10), "confirm", only_step=rp["step"], lays=THOROUGH_LAYOUTS, workers=2)
-        return any(r.get("k") == "mismatch" for r in recs)
+        ok = any(r.get("k") == "mismatch" for r in recs)
+        if not ok:
+            # not a verdict (vcheck turns it into exit 2); keep the case for diagnosis
+            d = os.path.join(os.environ.get("VERIF_TMP") or "/tmp", "verif-C11-unreproduced")
+            os.makedirs(d, exist_ok=True)
+            f = os.path.join(d, "case-%d-%d.json" % (os.getpid(), len(os.listdir(d))))
+            json.dump(rp, open(f, "w"))
+            log("unreproduced mismatch kept in %s" % f)
+        return ok
 
     if ctx.replay:
         rp = json.load(open(ctx.replay))["replay"]
